@@ -625,6 +625,48 @@ struct ApiWorld : World {
                             }
                             it = L(alignment_iter_next(it));
                         }
+                        // every level walked by index: goto a position inside, the last, one past the end, further out; past
+                        // the end there is no entry, so (like alignment_iter_next) the answer is NULL and the iterator is gone
+                        for (int lvl = 0; lvl < 3; ++lvl) {
+                            int cnt = lvl == 0 ? L(alignment_n_words(al)) : lvl == 1 ? L(alignment_n_phones(al)) : L(alignment_n_states(al));
+                            const int pos_of[] = { 0, cnt - 1, cnt, cnt + 2, cnt / 2, cnt };
+                            int pos = pos_of[(kk + lvl) % 6];
+                            if (pos < 0)
+                                continue;
+                            alignment_iter_t *gi = lvl == 0 ? L(alignment_words(al)) : lvl == 1 ? L(alignment_phones(al)) : L(alignment_states(al));
+                            if (!gi)
+                                continue;
+                            gi = L(alignment_iter_goto(gi, pos));
+                            out.probes[pos >= cnt ? "api.align_goto_past_end" : "api.align_goto_inside"]++;
+                            if (pos >= cnt) {
+                                if (gi) {
+                                    bad(opi, "iterator_stays_on_entries", "goto_past_end", "alignment_iter_goto to position " + std::to_string(pos) + " of " + std::to_string(cnt) + " entries returned an iterator");
+                                    LV(alignment_iter_free(gi));
+                                }
+                                continue;
+                            }
+                            if (!gi) {
+                                bad(opi, "protocol_call_succeeds", "goto_inside", "alignment_iter_goto to position " + std::to_string(pos) + " of " + std::to_string(cnt) + " entries returned NULL");
+                                continue;
+                            }
+                            int st = 0, du = 0;
+                            L(alignment_iter_name(gi));
+                            L(alignment_iter_seg(gi, &st, &du));
+                            L(alignment_iter_get(gi));
+                            if (lvl < 2) {
+                                alignment_iter_t *ch = L(alignment_iter_children(gi));
+                                int c2 = 0;
+                                while (ch) {
+                                    L(alignment_iter_name(ch));
+                                    if (++c2 > 2 && (kk & 1)) {
+                                        L(alignment_iter_free(ch));
+                                        break;
+                                    }
+                                    ch = L(alignment_iter_next(ch));
+                                }
+                            }
+                            L(alignment_iter_free(gi));
+                        }
                     }
                 } else if (what.compare(0, 4, "json") == 0) {
                     const char *js = L(decoder_result_json(s.d, 0.0, what[4] - '0'));
